@@ -271,5 +271,7 @@ class MultipartDecoder:
 def safe_decode(src: Union[bytes, bytearray], charset: str) -> str:
     try:
         return src.decode(charset)
-    except (UnicodeDecodeError, LookupError):
+    except (LookupError, ValueError):
+        # unknown charset, bytes that are invalid in it, codecs that refuse to
+        # decode at all ("undefined"), a charset name with a null character
         return src.decode("latin-1")
